@@ -96,6 +96,13 @@ pub enum Step {
     OvDrop { id: usize },
     Rollback { n: usize },
     Reopen { opts: Opts },
+    /// Run a session up to `finish` and keep the changeset (competing changesets, C12).
+    Prepare { id: usize, batch: Batch },
+    CommitPrepared { id: usize, nonblocking: bool },
+    DropPrepared { id: usize },
+    /// With a plain session alive, try a non-blocking commit of a prepared changeset (or overlay):
+    /// it must be handed back and nothing may change.
+    TryWhileSession { id: usize, overlay: bool },
 }
 
 #[derive(Clone, Debug, PartialEq, Serialize, Deserialize)]
